@@ -166,6 +166,20 @@ func init() {
 		ex.havocFreshBytes(st, base, n)
 		cont(st, fr, res)
 	}
+	// RFC 3394 key wrap (third-party): total; the result is an unknown fresh byte string or an error. Nothing
+	// about the wrapped bytes (in particular not that Unwrap inverts Wrap) is assumed.
+	keywrapFn := func(ex *Exec, fr *Frame, in ssa.Instruction, fn *ssa.Function, args []Value, st *State, cont callCont) {
+		base := st.FreshRegion()
+		n := FreshVar("wraplen", BV(64))
+		st.Assume(BVCmp("bvule", n, BVc(1<<20, 64)))
+		e := st.SymValue(errorType, "wraperr", *st.nextRg).(*IfaceV)
+		res := &TupleV{Elems: []Value{&SliceV{Base: base, Off: BVc(0, 64), Len: n, Cap: n}, e}}
+		ex.havocFreshBytes(st, base, n)
+		ex.intrUsed["go-aes-key-wrap Wrap/Unwrap (total; result bytes unknown, inverse relation NOT assumed)"] = true
+		cont(st, fr, res)
+	}
+	intrinsics["github.com/NickBall/go-aes-key-wrap.Wrap"] = keywrapFn
+	intrinsics["github.com/NickBall/go-aes-key-wrap.Unwrap"] = keywrapFn
 	intrinsics["sort.Ints"] = func(ex *Exec, fr *Frame, in ssa.Instruction, fn *ssa.Function, args []Value, st *State, cont callCont) {
 		// in-place permutation: the elements become unknown (that they are a sorted permutation of the
 		// old ones is not modelled; nothing proved so far depends on it)
